@@ -43,6 +43,18 @@ class H(dbmc.Harness):
                     out.append(('complete', j, a, 'i1', 'Success', 10, 20))
                 if (j, a) in atts:
                     out.append(('unschedule', j, a, atts[(j, a)]['instance_name'] or 'i1'))
+        # the REAL scheduler sweep (pool.py reservation + job.py schedule_job) handing job `pick` to i1, with what the
+        # worker does while the driver waits for its answer; attempts it creates get worker reports like any other
+        if st['i1'] == 'active':
+            for pick in ((0,) if self.tier == 'quick' else (0, 1)):
+                for during in (None, 'started', 'complete', 'fail', 'reject'):
+                    out.append(('sched', pick, 'i1', during))
+        for (j, a), row in sorted(atts.items()):
+            if a not in names and a != 'p1' and row['instance_name'] == 'i1':
+                if st['i1'] == 'active':
+                    out.append(('started', j, a, 'i1', 10))
+                    out.append(('complete', j, a, 'i1', 'Success', 10, 20))
+                out.append(('unschedule', j, a, 'i1'))
         # job-private path for job 1
         if st['i2'] == 'pending':
             out.append(('creating', 1, 'p1', 'i2', 10))
@@ -99,7 +111,7 @@ class H(dbmc.Harness):
 
 
 def check(tier, seed, procs):
-    depth = 5 if tier == 'quick' else 7
+    depth = 4 if tier == 'quick' else 7
     res = dbmc.bfs(H, (tier,), depth=depth, procs=procs, time_budget=80 if tier == 'quick' else 1500)
     cov = bf.coverage(res, f'2 jobs (1000 / 250 mcpu), attempts a1,a2 on pool instance i1 (active) + p1 on job-private i2 (pending, may activate), depth {depth}')
     return {'coverage': cov, 'violations': res.violations, 'assumptions': bf.ASSUME,
